@@ -37,9 +37,10 @@ func init() {
 }
 
 type pg struct {
-	r     *rand.Rand
-	emit  func(string)
-	nonce int64
+	r          *rand.Rand
+	emit       func(string)
+	nonce      int64
+	readFaults bool
 }
 
 func (g *pg) n() string {
@@ -60,7 +61,11 @@ func (g *pg) client(name, kind, sig string) {
 }
 
 func (g *pg) update(name, sig string, peers []string, mnow int64) {
-	g.emit(fmt.Sprintf("update %s %s %s block=%d peers=%s mnow=%s", name, g.n(), sig, g.r.Intn(50), JoinC(peers), TTok(mnow)))
+	rf := ""
+	if g.readFaults && g.r.Intn(6) == 0 {
+		rf = " readfault=1" // the deposit lookup of the balance read-back fails during this keep-alive
+	}
+	g.emit(fmt.Sprintf("update %s %s %s block=%d peers=%s mnow=%s%s", name, g.n(), sig, g.r.Intn(50), JoinC(peers), TTok(mnow), rf))
 }
 
 func (g *pg) dump() { g.emit("dump") }
@@ -70,7 +75,7 @@ const minute = int64(time.Minute)
 // ---------------------------------------------------------------- money: billing, linking, withdrawals (C01, C07)
 
 func genPoolMoney(r *rand.Rand, idx int, emit func(string)) {
-	g := &pg{r: r, emit: emit}
+	g := &pg{r: r, emit: emit, readFaults: true}
 	g.cfg(pick(r, []string{"1000", "7", "1000000", "18446744073709551629"}), minute, "off", 0,
 		pick(r, []string{"off", "0", "500", "5000"}), pick(r, []string{"off", "0", "100", "1000"}), r.Intn(8) != 0)
 	g.host("n0", "c0", "1.1.1.1", "geth")
@@ -108,7 +113,7 @@ func genPoolMoney(r *rand.Rand, idx int, emit func(string)) {
 				// a host of some wallet earns while this wallet's settlement is in flight
 				during = fmt.Sprintf(" during=%s:%s", pick(r, []string{"n0", "n0", "n1", "n6"}), pick(r, []string{"1000", "1", "777", "18446744073709551629"}))
 			}
-			emit(fmt.Sprintf("withdraw %s %s %s settle=%s%s", w, g.n(), pick(r, []string{"good", "good", "good", "good", "bad", "otherkey"}), pick(r, []string{"ok", "ok", "ok", "fail"}), during))
+			emit(fmt.Sprintf("withdraw %s %s %s settle=%s%s", w, g.n(), pick(r, []string{"good", "good", "good", "good", "bad", "otherkey"}), pick(r, []string{"ok", "ok", "ok", "fail", "failonce"}), during))
 			if r.Intn(2) == 0 {
 				g.dump()
 				// an immediate repeat of the withdrawal must not pay the same earnings again
@@ -261,7 +266,7 @@ func genPoolNonce(r *rand.Rand, idx int, emit func(string)) {
 	emit(fmt.Sprintf("addnode w0 %s good n0", g.n()))
 	g.dump()
 	ids := []string{"n0", "n6", "n7"}
-	bad := []string{"bad", "otherkey", "empty", "short", "garbage", "wrongmethod", "wrongnonce", "alteredparam", "otherident"}
+	bad := []string{"bad", "otherkey", "empty", "short", "garbage", "wrongmethod", "wrongnonce", "alteredparam", "otherident", "respell0x", "respellUP", "respell1"}
 	last := map[string]int64{}
 	for i := 0; i < 10+r.Intn(15); i++ {
 		who := pick(r, ids)
